@@ -28,9 +28,11 @@ package main
 //@   call parseIdentity#0 requires arg0 == scanner.$cur && iskeyline(arg0)                                          [C18]
 //@   call fmt.Errorf#1 requires arg0 == "error at line %d: %v" && unboxint(arg1[0]) == n && n == scanner.$ln        [C18]
 //@   ensures#all err == nil ==> len(ids) == keycount(id(scanner), scanner.$ln) && len(ids) >= 1 && (forall j in 0..len(ids) :: ids[j] != nil)   [C18]
+//@   ensures#nonnil err == nil ==> len(ids) >= 1 && (forall j in 0..len(ids) :: ids[j] != nil)                     [C14 C18]
 //@   ensures#nil err != nil ==> ids == nil                                                                         [C14 C18]
 
 //@ func parseRecipientsFile(name) (recs, err)
+//@   modifies $warnings, stdinInUse
 //@   loop 1 invariant scanner != nil && n == scanner.$ln && n >= 0
 //@   loop 1 invariant#count len(recs) + ($warnings - old($warnings)) == keycount(id(scanner), n)                     [C18]
 //@   loop 1 invariant#nonnil forall j in 0..len(recs) :: recs[j] != nil                                            [C18]
@@ -38,6 +40,7 @@ package main
 //@   call fmt.Errorf#4 requires arg0 == "%q: malformed recipient at line %d" && len(arg1) == 2 && unboxstr(arg1[0]) == name && unboxint(arg1[1]) == n && n == scanner.$ln   [C18]
 //@   call fmt.Errorf#3 requires arg0 == "%q: line %d is too long" && len(arg1) == 2 && unboxstr(arg1[0]) == name && unboxint(arg1[1]) == n   [C18]
 //@   ensures#all err == nil ==> len(recs) + ($warnings - old($warnings)) == keycount(id(scanner), scanner.$ln) && len(recs) >= 1   [C18]
+//@   ensures#nonnil err == nil ==> (forall j in 0..len(recs) :: recs[j] != nil)                                    [C14 C18]
 //@   ensures#nil err != nil ==> recs == nil                                                                        [C14 C18]
 
 // ---- C15: exit status 0 iff the whole result was delivered -------------
@@ -50,7 +53,7 @@ package main
 //@   noreturn                                                                                                        [C15]
 
 //@ func errorWithHint(error, hints)
-//@   loop 1 invariant true
+//@   loop 1 invariant -1 <= rangeindex && rangeindex < len(hints)
 //@   noreturn                                                                                                        [C15]
 
 //@ func decrypt(identities, in, out)
@@ -84,4 +87,76 @@ package main
 //@   ensures#closeerr l.f != nil ==> calls("Close",1) == old(calls("Close",1)) + 1 && err == lasterr("Close",1)     [C15]
 
 //@ func absPath(name) (abs)
-//@   ensures#canon lasterr("filepath.Abs",1) == nil ==> abs == abspath(name)                                        [C15]
+//@   ensures#canon abs == canon(name)                                                                               [C15]
+//@   modifies nothing
+
+//@ func main()
+//@   nosafety
+//@   pathcap 20000
+//@   loop 1 invariant true
+//@   loop 2 invariant true
+//@   loop 3 invariant true
+//@   loop 4 invariant#checked -1 <= rangeindex && rangeindex < len(inUseFiles) && (forall j in 0..rangeindex+1 :: inUseFiles[j] != canon(name))   [C15]
+//@   call newLazyOpener#1 requires arg0 == name && (forall j in 0..len(inUseFiles) :: inUseFiles[j] != canon(name))   [C15]
+
+//@ func readPubFile(name) (pk, err)
+//@   ensures#nonnil err == nil ==> pk != nil                                                                        [C14 C18]
+
+//@ func parseSSHIdentity(name, pemBytes) (ids, err)
+//@   modifies nothing
+//@   ensures#one err == nil ==> len(ids) == 1 && ids[0] != nil                                                      [C14 C18]
+//@   ensures#nil err != nil ==> ids == nil                                                                          [C14 C18]
+
+//@ func parseIdentitiesFile(name) (ids, err)
+//@   modifies stdinInUse
+//@   ensures#nonnil err == nil ==> len(ids) >= 1 && (forall j in 0..len(ids) :: ids[j] != nil)                      [C14 C18]
+//@   ensures#nil err != nil ==> ids == nil                                                                          [C14 C18]
+
+//@ func (*EncryptedIdentity).Recipients(i) (recs, err)
+//@   modifies i.identities
+//@   assumes#nonnil err == nil ==> (forall j in 0..len(recs) :: recs[j] != nil)
+
+//@ func identitiesToRecipients(ids) (recs, err)
+//@   nosafety
+//@   modifies nothing
+//@   requires forall j in 0..len(ids) :: ids[j] != nil
+//@   loop 1 invariant#idx -1 <= rangeindex && rangeindex < len(ids)
+//@   loop 1 invariant#nonnil forall j in 0..len(recipients) :: recipients[j] != nil                                 [C14 C18]
+//@   ensures#nonnil err == nil ==> (forall j in 0..len(recs) :: recs[j] != nil)                                     [C14 C18]
+//@   ensures#nil err != nil ==> recs == nil                                                                         [C14 C18]
+
+//@ func decryptPass(in, out)
+//@   requires in != nil && out != nil
+//@   call decrypt#1 requires same(arg1, in) && same(arg2, out)                                                      [C15]
+//@   ensures#ran calls("decrypt",1) == old(calls("decrypt",1)) + 1                                                  [C15]
+
+//@ func decryptNotPass(flags, in, out)
+//@   requires in != nil && out != nil
+//@   loop 1 invariant#idx -1 <= rangeindex && rangeindex < len(flags)
+//@   loop 1 invariant#nonnil forall j in 0..len(identities) :: identities[j] != nil                                 [C14 C15]
+//@   call decrypt#1 requires same(arg1, in) && same(arg2, out)                                                      [C15]
+//@   ensures#ran calls("decrypt",1) == old(calls("decrypt",1)) + 1                                                  [C15]
+
+//@ func randomWord() (w)
+//@   nosafety
+//@   maypanic
+
+//@ func passphrasePromptForEncryption() (p, err)
+//@   nosafety
+//@   loop 1 invariant true
+
+//@ func encryptPass(in, out, armor)
+//@   requires in != nil && out != nil
+//@   call encrypt#1 requires same(arg1, in) && same(arg2, out) && arg3 == armor                                     [C15]
+//@   ensures#ran calls("encrypt",1) == old(calls("encrypt",1)) + 1                                                  [C15]
+
+//@ func encryptNotPass(recs, files, identities, in, out, armor)
+//@   requires in != nil && out != nil
+//@   loop 1 invariant#idx -1 <= rangeindex && rangeindex < len(recs)
+//@   loop 2 invariant#idx -1 <= rangeindex && rangeindex < len(files)
+//@   loop 3 invariant#idx -1 <= rangeindex && rangeindex < len(identities)
+//@   loop 1 invariant#nonnil forall j in 0..len(recipients) :: recipients[j] != nil                                 [C14 C15]
+//@   loop 2 invariant#nonnil forall j in 0..len(recipients) :: recipients[j] != nil                                 [C14 C15]
+//@   loop 3 invariant#nonnil forall j in 0..len(recipients) :: recipients[j] != nil                                 [C14 C15]
+//@   call encrypt#1 requires same(arg1, in) && same(arg2, out) && arg3 == armor                                     [C15]
+//@   ensures#ran calls("encrypt",1) == old(calls("encrypt",1)) + 1                                                  [C15]
